@@ -409,3 +409,26 @@ theorem undouble_dbl_blanks (v : Str) (m : Nat) : undouble (dbl v ++ blanks m) =
       · intro r h; exact absurd h hc
 
 end PsV.Aux
+
+namespace PsV.Aux
+open PsV.Gen
+
+theorem longKeyScan_none (k : Str) (h : longKeyScan k = none) : '=' ∉ k := by
+  induction k with
+  | nil => simp
+  | cons c r ih =>
+    unfold longKeyScan at h
+    by_cases h1 : (c == '=') = true
+    · simp [h1] at h
+    · simp only [h1, Bool.false_eq_true, if_false] at h
+      by_cases h2 : c.isLower = true
+      · simp [h2] at h
+      · simp only [h2, Bool.false_eq_true, if_false] at h
+        have hc : c ≠ '=' := by simpa using h1
+        simp only [List.mem_cons, not_or]
+        exact ⟨fun x => hc x.symm, ih h⟩
+
+theorem psvcQ_close (f jj : Nat) (h : jj < 70) : psvcQ (f + 1) ['\''] jj = ['\''] := by
+  simp only [psvcQ, C16.flenValue, show ¬ jj ≥ 71 - 1 by omega, if_false, beq_self_eq_true, if_true]
+
+end PsV.Aux
